@@ -146,6 +146,34 @@ def _r3(ctx):
                     y[0] == "call" and "pktparser::Buffer" in str(y[1]) and str(y[1]).rsplit("::", 1)[-1] in ("get_vec", "get_bytes") for y in subterms(norm(v[2][0])))
                 ctx.check(okv, "R3", "text-field-is-the-octets-read:%s" % fname, ctx.where(b, s["sp"]),
                           "`%s` must be null_terminated(the field as read) on every path (is %s)" % (fname, show(v)[:100]))
+        # hlen may be anything up to the width of chaddr, that width included: the test that refuses a message compares hlen with the 16
+        # octets read and refuses only hlen > 16
+        def m_hlen(d):
+            if d[0] == "bin" and d[1] in ("Gt", "Ge", "Lt", "Le"):
+                xs = [norm(d[2]), norm(d[3])]
+                is_len = lambda x: (x[0] == "call" and str(x[1]).endswith("::len")) or (x[0] == "const" and x[1] in (16, 17, 15))
+                is_hl = lambda x: any(y[0] == "call" and "pktparser::Buffer" in str(y[1]) and str(y[1]).endswith("get_u8") for y in subterms(x)) and not is_len(x)
+                return (is_hl(xs[0]) and is_len(xs[1])) or (is_len(xs[0]) and is_hl(xs[1]))
+            return False
+        for sbb, d, te, fe in bool_switches(P, b, m_hlen):
+            xs = [norm(d[2]), norm(d[3])]
+            hl_first = not ((xs[0][0] == "call" and str(xs[0][1]).endswith("::len")) or xs[0][0] == "const")
+            width = 16
+            other = xs[1] if hl_first else xs[0]
+            k = other[1] if other[0] == "const" else width
+            op = d[1] if hl_first else {"Gt": "Lt", "Ge": "Le", "Lt": "Gt", "Le": "Ge"}[d[1]]          # hlen op k
+            # the edge on which decoding goes on, and the largest hlen it admits
+            errs = {bb for bb, idx, st in b.stmts() if st["p"] == (0,) and st.get("rv") and st["rv"]["k"] == "agg" and st["rv"].get("variant") == "Err"}
+            t_err = all(tgt in errs or (cfg.reachable_from(tgt) & errs and not any(True for _ in ())) for _, tgt in te) and any(tgt in errs for _, tgt in te)
+            f_err = any(tgt in errs for _, tgt in fe)
+            if t_err == f_err:
+                continue
+            if t_err:      # refused when `hlen op k` holds: admitted values satisfy the negation
+                largest = {"Gt": k, "Ge": k - 1}.get(op)
+            else:          # refused when it does not hold
+                largest = {"Le": k, "Lt": k - 1}.get(op)
+            ctx.check(largest == width, "R8", "hlen-up-to-the-width-of-chaddr", ctx.where(b),
+                      "the decoder admits hardware address lengths up to %s; the field holds %d octets and all of them may be in use" % (largest, width))
         # magic: the read compared with the constant
         for bb, idx, s in b.stmts():
             if "rv" in s and s["rv"]["k"] == "bin" and s["rv"]["op"] in ("Ne", "Eq"):
